@@ -18,7 +18,8 @@ func init() { Registry["C09"] = runC09 }
 
 // A program is a list of ops:  "R" router-level middleware, "A".."D" handler-level middleware of
 // that handler, "+A".."+D" AddHandler, "P"/"S" publisher / subscriber decorator, "!" start (Run the
-// first time, RunHandlers afterwards). A final start is implied.
+// first time, RunHandlers afterwards). A final start is implied.  "~" (first op): handler A is registered under the
+// empty name "".  "Pf"/"Sf": a publisher / subscriber decorator whose first application fails (RunHandlers is retried once).
 type c09Prog []string
 
 func c09Enumerate(maxLen int) []c09Prog {
@@ -161,6 +162,9 @@ func runC09(c *Ctx) error {
 	nex := len(progs)
 	for i := range progs {
 		progs[i] = c09AddDecorators(c.Rng, progs[i])
+		if i%4 == 3 {
+			progs[i] = append(c09Prog{"~"}, progs[i]...)
+		}
 	}
 	nr := c.Pick(200, 10000)
 	for i := 0; i < nr; i++ {
@@ -208,6 +212,7 @@ func c09Run(r *tr.Run, prog c09Prog) {
 	started := map[string]bool{}
 	var order []string
 	nreg, npd, nsd := 0, 0, 0
+	pendingFailures := 0
 	ctx, cancel := context.WithCancel(context.Background())
 	defer cancel()
 	runDone := make(chan struct{})
@@ -271,7 +276,12 @@ func c09Run(r *tr.Run, prog c09Prog) {
 				return false
 			}
 		} else {
-			if err := router.RunHandlers(ctx); err != nil {
+			err := router.RunHandlers(ctx)
+			for retry := 0; err != nil && retry < pendingFailures+1 && retry < 4; retry++ {
+				err = router.RunHandlers(ctx) // a decorator failed (once): the caller retries
+			}
+			pendingFailures = 0
+			if err != nil {
 				r.Emit("error", "what", err.Error())
 				return false
 			}
@@ -289,8 +299,58 @@ func c09Run(r *tr.Run, prog c09Prog) {
 		}
 		return probe()
 	}
+	regName := func(h string) string {
+		if h == "A" && len(prog) > 0 && prog[0] == "~" {
+			return ""
+		}
+		return h
+	}
 	for _, op := range prog {
 		switch {
+		case op == "~":
+		case op == "Pf":
+			npd++
+			id := npd
+			failed := false
+			pendingFailures++
+			r.Emit("pdec", "id", id)
+			inner := message.MessageTransformPublisherDecorator(func(m *message.Message) {
+				cu := strings.TrimSuffix(m.UUID, ".o")
+				mu.Lock()
+				pubOrd[cu] = append(pubOrd[cu], id)
+				mu.Unlock()
+			})
+			router.AddPublisherDecorators(func(p message.Publisher) (message.Publisher, error) {
+				mu.Lock()
+				f := !failed
+				failed = true
+				mu.Unlock()
+				if f {
+					return nil, fmt.Errorf("decorator %d not ready yet", id)
+				}
+				return inner(p)
+			})
+		case op == "Sf":
+			nsd++
+			id := nsd
+			failed := false
+			pendingFailures++
+			r.Emit("sdec", "id", id)
+			inner := message.MessageTransformSubscriberDecorator(func(m *message.Message) {
+				mu.Lock()
+				subOrd[m.UUID] = append(subOrd[m.UUID], id)
+				mu.Unlock()
+			})
+			router.AddSubscriberDecorators(func(sb message.Subscriber) (message.Subscriber, error) {
+				mu.Lock()
+				f := !failed
+				failed = true
+				mu.Unlock()
+				if f {
+					return nil, fmt.Errorf("decorator %d not ready yet", id)
+				}
+				return inner(sb)
+			})
 		case op == "R":
 			nreg++
 			r.Emit("reg", "id", nreg, "scope", "R")
@@ -323,7 +383,7 @@ func c09Run(r *tr.Run, prog c09Prog) {
 			subs[h] = scripted.NewSub("s" + h)
 			pubs[h] = scripted.NewPub("p" + h)
 			r.Emit("addh", "h", h)
-			handles[h] = router.AddHandler(h, "t"+h, subs[h], "out"+h, pubs[h], func(msg *message.Message) ([]*message.Message, error) {
+			handles[h] = router.AddHandler(regName(h), "t"+h, subs[h], "out"+h, pubs[h], func(msg *message.Message) ([]*message.Message, error) {
 				return []*message.Message{message.NewMessage(msg.UUID+".o", nil)}, nil
 			})
 			order = append(order, h)
